@@ -12,7 +12,7 @@ from .. import gen, models, measure, estim
 ID = 'C03'
 RULE = ('random domain (<= 256 cells) x 1-5 measurements (overlapping / nested / cyclic / repeated / disjoint projections in '
         'arbitrary attribute order; 10 query classes incl. None, sparse, LinearOperator, rank-deficient, total row; noise '
-        'scales 0.1-100 mixed inside one problem; N in {1,20,1e3,1e5}; total given or estimated) x solver {MD, RDA, IG}; '
+        'scales 0.1-100 mixed inside one problem; N in {1,20,1e3,1e5}; total given or estimated) x solver {MD, RDA, IG}; every fourth case on an engine object that answered another measurement set first; '
         'distinct = content hash; non-trivial = uniform is not already optimal (gap to optimum > 1e-9 relative)')
 ANCHORS = ['FactoredInference.estimate', 'FactoredInference.mirror_descent', 'FactoredInference.dual_averaging',
            'FactoredInference.interior_gradient', 'FactoredInference._marginal_loss', 'GraphicalModel.belief_propagation',
@@ -40,7 +40,12 @@ def gen_case(rng, tier, idx):
     meas, info = measure.gen_measurements(rng, attrs, shape, 1, 5, min_cells=(1 if solver == 'MD' else 2), max_cells=64)
     known = rng.rand() < 0.6
     total = float(max(1.0, info['N'])) if known else None
-    return dict(attrs=attrs, shape=shape, meas=meas, N=info['N'], structure=info['structure'], solver=solver, total=total,
+    prior = None
+    if idx % 4 == 3:
+        # the engine object answered another question first (no warm start): nothing of it may enter this objective
+        pm, pinfo = measure.gen_measurements(rng, attrs, shape, 1, 3, min_cells=(1 if solver == 'MD' else 2), max_cells=64)
+        prior = dict(meas=pm, total=float(max(1.0, pinfo['N'])), iters=int(gen.pick(rng, [1, 20, 200])))
+    return dict(prior=prior, attrs=attrs, shape=shape, meas=meas, N=info['N'], structure=info['structure'], solver=solver, total=total,
                 spellings=[gen.pick(rng, ['dense', 'dense', 'csr', 'linop']) for _ in meas],
                 proj_forms=[gen.pick(rng, ['tuple', 'tuple', 'list', 'str']) for _ in meas],
                 np_seed=int(rng.randint(2 ** 31)))
@@ -68,7 +73,12 @@ def run_case(case, ctx):
     history = []
     for k, iters in enumerate(BUDGETS):
         np.random.seed(case['np_seed'] % (2 ** 32))
-        eng, model = estim.estimate(dom, tuples, case['total'], solver, iters)
+        engine = None
+        if case.get('prior') is not None:
+            pr = case['prior']
+            engine, _m0 = estim.estimate(dom, measure.as_tuples(pr['meas']), pr['total'], solver, pr['iters'])
+            ctx.tag('engine_history')
+        eng, model = estim.estimate(dom, tuples, case['total'], solver, iters, engine=engine)
         total = float(model.total)
         if fstar is None:
             fstar, gap, fu, _p, adequate = estim.optimum(attrs, shape, plain, total)
